@@ -26,11 +26,12 @@
 (*   nCS nCU  floating_point_algorithms.split_veltkamp with C = 2^s+1,     *)
 (*            scale on / off                                               *)
 (*   cC       the classical splitter, C = 2^s+1                            *)
-(*   nNS nNU  floating_point_algorithms.split_veltkamp with C = None: the  *)
-(*            code then multiplies by N = 2^s.  NOT in MustHold: the model *)
-(*            shows this default violates split_bits / prod_exact when p   *)
-(*            is even (T4, T6) - the design-level form of the known        *)
-(*            finding of the check; the counts are reported.               *)
+(*   nDS nDU  floating_point_algorithms.split_veltkamp with C = None (the  *)
+(*            default constant, 2^s+1 since repo commit 92b9285)           *)
+(*   nNS nNU  the same splitter with the multiplier N = 2^s (the default   *)
+(*            before 92b9285).  NOT in MustHold: a negative control - the  *)
+(*            model shows it violates split_bits / prod_exact when p is    *)
+(*            even (T4, T6); the driver requires the counts to be > 0.     *)
 (*   splitk   every split point 2 <= k <= p-2, both algorithms, no scaling *)
 (*   sum3     the three-term sum (third operand: every fifth pattern)      *)
 (* Witness relations (wrong algorithms must violate for some operand; the  *)
@@ -76,18 +77,20 @@ FinPats(f) == {n \in 0..(Pow2(f.w) - 1) : IsFinite(f, NFromInt(n))}
 
 Cfg(alg, cg, c, scale) == [alg |-> alg, cg |-> cg, c |-> c, scale |-> scale]
 StdCfg(name) ==
-  CASE name = "nNS" -> Cfg("n", FALSE, <<>>, TRUE)
-    [] name = "nNU" -> Cfg("n", FALSE, <<>>, FALSE)
+  CASE name = "nNS" -> Cfg("n", TRUE, K.N, TRUE)
+    [] name = "nNU" -> Cfg("n", TRUE, K.N, FALSE)
+    [] name = "nDS" -> Cfg("n", FALSE, <<>>, TRUE)
+    [] name = "nDU" -> Cfg("n", FALSE, <<>>, FALSE)
     [] name = "nCS" -> Cfg("n", TRUE, K.C, TRUE)
     [] name = "nCU" -> Cfg("n", TRUE, K.C, FALSE)
     [] name = "cC" -> Cfg("c", FALSE, <<>>, FALSE)
-CfgNames == {"nNS", "nNU", "nCS", "nCU", "cC"}
+CfgNames == {"nNS", "nNU", "nDS", "nDU", "nCS", "nCU", "cC"}
 KCfg(alg, k) == Cfg(alg, TRUE, RN(F, DAdd(DPow2(k), DOne)), FALSE)
 
 PairRels == {"sum2", "fast", "wit_fast", "wit_drop", "wit_prod_c"} \cup {"prod:" \o c : c \in CfgNames}
 SplitRels == {"splitk", "wit_split_c", "wit_noclamp"} \cup {"split:" \o c : c \in CfgNames}
-MustHold == {"sum2", "fast", "splitk", "sum3"} \cup {"prod:" \o c : c \in {"nCS", "nCU", "cC"}}
-            \cup {"split:" \o c : c \in {"nCS", "nCU", "cC"}}
+MustHold == {"sum2", "fast", "splitk", "sum3"} \cup {"prod:" \o c : c \in {"nCS", "nCU", "nDS", "nDU", "cC"}}
+            \cup {"split:" \o c : c \in {"nCS", "nCU", "nDS", "nDU", "cC"}}
 CfgOf(r) == CHOOSE c \in CfgNames : r = "prod:" \o c \/ r = "split:" \o c
 
 B2N(b) == IF b THEN 1 ELSE 0
